@@ -54,7 +54,7 @@ def gen(rng, n, tier):
         m0 = d["missed"]
         yield [["bucket", "%dd/%s" % (nd, "+".join(it[0] for it in items))], ["hist", h], ["names", d["names"]],
                ["under", m0[0] if nd == 1 else 0], ["over", m0[1] if nd == 1 else 0], ["keep", keep], ["items", items], ["tuple", tup],
-               ["npint", rng.choice(["F", "F", "int64", "int32"])]]      # integer indices spelled as numpy integers (impl side only)
+               ["npint", rng.choice(["F", "F", "int64", "int32"])], ["peek", rng.choice(["T", "F"])]]      # integer indices spelled as numpy integers (impl side only)
 
 def _py_item(it):
     import numpy as np
@@ -73,6 +73,10 @@ def impl(case):
     items = [_py_item(it) for it in d["items"]]
     if d.get("npint", "F") != "F": items = [(getattr(np, d["npint"])(x) if isinstance(x, int) else x) for x in items]
     idx = tuple(items) if d["tuple"] == "T" else items[0]
+    if d.get("peek", "F") == "T":      # the source's edge representations were looked at (and cached) before the selection
+        for b in h._binnings: _ = (b.numpy_bins if b.is_consecutive() else None, b.first_edge, b.last_edge, b.bins)
+        try: _ = h[0:1] if nd == 1 else h[(slice(0, 1),) * nd]
+        except Exception: pass
     try:
         r = h[idx]
     except Exception as e:
@@ -84,8 +88,24 @@ def impl(case):
         return ["scalar", e, float(v)]
     uo = "nd"
     if nd == 1: uo = [float(r.underflow), float(r.overflow)]
-    return ["ok", C.snap_bins(r), np.asarray(r.frequencies).ravel().tolist(), np.asarray(r.errors2).ravel().tolist(),
-            list(r.axis_names), uo]
+    out = ["ok", C.snap_bins(r), np.asarray(r.frequencies).ravel().tolist(), np.asarray(r.errors2).ravel().tolist(),
+           list(r.axis_names), uo]
+    # every representation of the selected bins agrees with the pairs
+    for b in r._binnings:
+        bb = np.asarray(b.bins, dtype=float).reshape(-1, 2)
+        if len(bb) == 0: continue
+        if float(b.first_edge) != bb[0, 0] or float(b.last_edge) != bb[-1, 1]: return ["edges-inconsistent"]
+        if b.is_consecutive() and np.asarray(b.numpy_bins, dtype=float).tolist() != np.concatenate([bb[:1, 0], bb[:, 1]]).tolist():
+            return ["edges-inconsistent"]
+    # the selection is a histogram of its own: filling it leaves the source as it was
+    try:
+        if r is not h and (r.bin_count if r.ndim == 1 else all(r.shape)):      # h[:] without a real selection is h itself
+            centre = [float((np.asarray(b.bins, dtype=float).reshape(-1, 2)[0]).mean()) for b in r._binnings]
+            r.fill(centre[0] if r.ndim == 1 else centre, weight=3)
+    except Exception:
+        pass
+    if not C.same_snap(before, C.snap(h)): return ["source-modified"]
+    return out
 
 def nontrivial(case, obs):
     if obs[0] == "scalar": return True
